@@ -21,21 +21,31 @@ pub enum Outcome {
 }
 use Outcome::*;
 
-fn viol(msg: String) -> Outcome {
+pub(crate) fn viol(msg: String) -> Outcome {
 	Violated { extra: String::new(), msg }
 }
 
 /// Per-worker progress, read by the hang watchdog.
 pub struct Progress {
 	case: AtomicUsize,
-	sub: AtomicUsize,
+	pub(crate) sub: AtomicUsize,
 	/// milliseconds since search start + 1 when the worker entered a peppi call; 0 = not inside one
 	since: AtomicU64,
+	t0: Instant,
 }
 
 impl Progress {
-	fn new() -> Self {
-		Progress { case: AtomicUsize::new(0), sub: AtomicUsize::new(0), since: AtomicU64::new(0) }
+	fn new(t0: Instant) -> Self {
+		Progress { case: AtomicUsize::new(0), sub: AtomicUsize::new(0), since: AtomicU64::new(0), t0 }
+	}
+
+	/// Runs `f` (a peppi call that may never return) as sub-case `sub`, visible to the hang watchdog while it runs.
+	pub(crate) fn timed<T>(&self, sub: usize, f: impl FnOnce() -> T) -> T {
+		self.sub.store(sub, Ordering::Relaxed);
+		self.since.store(self.t0.elapsed().as_millis() as u64 + 1, Ordering::Release);
+		let r = f();
+		self.since.store(0, Ordering::Release);
+		r
 	}
 }
 
@@ -45,21 +55,21 @@ fn panic_text(p: Box<dyn std::any::Any + Send>) -> String {
 	p.downcast_ref::<&str>().map(|s| s.to_string()).or_else(|| p.downcast_ref::<String>().cloned()).unwrap_or_else(|| "panic".to_string())
 }
 
-fn guard<T>(f: impl FnOnce() -> T) -> Result<T, String> {
+pub(crate) fn guard<T>(f: impl FnOnce() -> T) -> Result<T, String> {
 	catch_unwind(AssertUnwindSafe(f)).map_err(panic_text)
 }
 
-fn opts(skip_frames: bool, compute_hash: bool) -> Opts {
+pub(crate) fn opts(skip_frames: bool, compute_hash: bool) -> Opts {
 	Opts { skip_frames, compute_hash, ..Default::default() }
 }
 
 /// Ok(Ok(game)) | Ok(Err(reader error)) | Err(panic text)
-fn read_with(bytes: &[u8], o: Option<&Opts>) -> Result<Result<Game, String>, String> {
+pub(crate) fn read_with(bytes: &[u8], o: Option<&Opts>) -> Result<Result<Game, String>, String> {
 	guard(|| peppi::io::slippi::read(Cursor::new(bytes), o).map_err(|e| e.to_string()))
 }
 
 /// Parse a file that is valid by construction.
-fn parse_valid(bytes: &[u8]) -> Result<Game, Outcome> {
+pub(crate) fn parse_valid(bytes: &[u8]) -> Result<Game, Outcome> {
 	match read_with(bytes, None) {
 		Ok(Ok(g)) => Ok(g),
 		Ok(Err(e)) => Err(viol(format!("the reader rejected a well-formed file: {}", e))),
@@ -67,7 +77,7 @@ fn parse_valid(bytes: &[u8]) -> Result<Game, Outcome> {
 	}
 }
 
-fn write_game(game: &Game) -> Result<Result<Vec<u8>, String>, String> {
+pub(crate) fn write_game(game: &Game) -> Result<Result<Vec<u8>, String>, String> {
 	guard(|| {
 		let mut out = vec![];
 		peppi::io::slippi::write(&mut out, game).map(|_| out).map_err(|e| e.to_string())
@@ -415,7 +425,7 @@ pub fn c13(spec: &Spec, _p: &Progress) -> Outcome {
 
 // ---------------------------------------------------------------------------------------------- c01
 
-fn first_diff(a: &[u8], b: &[u8]) -> String {
+pub(crate) fn first_diff(a: &[u8], b: &[u8]) -> String {
 	let n = a.iter().zip(b).position(|(x, y)| x != y).unwrap_or(a.len().min(b.len()));
 	format!("lengths {} vs {}, first difference at offset {} ({:02x?} vs {:02x?})", a.len(), b.len(), n, a.get(n), b.get(n))
 }
@@ -983,7 +993,7 @@ pub fn search(name: &str, cases: &[Spec], check: Check, hang_label: Option<&(dyn
 	let best = AtomicUsize::new(usize::MAX);
 	let found: Mutex<Vec<(usize, String, String)>> = Mutex::new(vec![]);
 	let panics: Mutex<Vec<(usize, String)>> = Mutex::new(vec![]);
-	let slots: Vec<Progress> = (0..threads).map(|_| Progress::new()).collect();
+	let slots: Vec<Progress> = (0..threads).map(|_| Progress::new(t0)).collect();
 	let done = AtomicUsize::new(0);
 	std::thread::scope(|s| {
 		for slot in &slots {
@@ -1049,7 +1059,7 @@ pub fn search(name: &str, cases: &[Spec], check: Check, hang_label: Option<&(dyn
 /// Replays one case: prints `<name> VIOLATED: ...` and returns 1, or returns 0.
 pub fn replay(name: &str, spec: &Spec, check: Check, hang_label: Option<&(dyn Fn(&Spec, usize) -> String + Sync)>, t0: Instant) -> i32 {
 	std::panic::set_hook(Box::new(|_| {}));
-	let slot = Progress::new();
+	let slot = Progress::new(t0);
 	let finished = AtomicUsize::new(0);
 	let mut rc = 0;
 	std::thread::scope(|s| {
